@@ -12,6 +12,8 @@
 (A5/A6) range modes tight / clip through the class API and the wrappers' tightrange / cliprange, each member compared
     with a stand-alone nested solver (differential oracle); differential-evolution members (DE, DE2), whose best is
     kept apart from population[0].
+(A7/A8) evaluation / step monitors that already hold 1 or 3 records when the ensemble starts (class API and the wrappers'
+    evalmon= / itermon=), and one ensemble object solved twice in a row under raised limits.
 (G) E3/E2 point generators: gridpts, samplepts / random_samples (every draw), fillpts (seeded),
     randomly_bin (every sort-key answer).
 """
@@ -111,8 +113,12 @@ def judge(R):
     out = []
     path = 'solve' if cfg.get('mode', 'solve') == 'solve' else 'step'
 
+    legacy = '+'.join(n for n, k in (('eval', 'em_preload'), ('step', 'sm_preload')) if cfg.get(k))
+
     def bad(clause, detail, **extra):
         sig = {'clause': clause, 'ens': cfg['ens'], 'path': path}
+        if legacy:
+            sig['legacy_monitor_records'] = legacy
         sig.update(extra)
         out.append((sig, detail))
 
@@ -124,6 +130,16 @@ def judge(R):
             for why, i, k in past_stop(tr, G, EV)[:1]:
                 bad('member_ran_past_stop', 'member %r began iteration %d although %s' % (i, k, '; '.join(why)), reason=why[0].split(' ')[0])
         else:
+            if cfg.get('sm_preload') and cfg['nested'] in ('NM', 'Powell'):
+                # legacy step-monitor records make a nested solver believe it has already run; when a stand-alone
+                # nested solver handed the same records fails the same way the ensemble adds nothing: recorded, not judged
+                import mystic.termination as mt
+                dim = R.dim
+                x0 = tr.starts.get(0) or tuple(0.5 * (l + h) for l, h in zip(*lab.box_of(cfg.get('box') or 'unit', dim)))
+                ref = lab.solo(cfg, x0, R.term if R.term is not None else mt.NormalizedChangeOverGeneration(1e-4), cfg['sm_preload'])
+                if ref[0] == 'error' and ref[1] == name:
+                    R.note = 'nested_solver_itself_raises_with_legacy_step_records:' + name
+                    return out
             where = [l.strip() for l in tb.splitlines() if l.strip().startswith('File "')]
             out.append(({'clause': 'raised', 'error': name, 'limits': limits_kind(cfg), 'path': path, 'api': cfg.get('api', 'class')},
                         '%s %s raised %s: %s (%s)' % (cfg['ens'], 'wrapper' if cfg.get('api') == 'wrapper' else cfg.get('mode', 'solve'),
@@ -139,7 +155,7 @@ def judge(R):
         if allfc != len(calls):
             bad('wrapper_allfuncalls', 'allfuncalls=%r but the cost was called %d times' % (allfc, len(calls)))
         logged = dict((c[1], c[2]) for c in calls)
-        if np.isfinite(fval) and (vec(x) not in logged or not feq(objective(R, vec(x)), float(fval))):
+        if np.isfinite(fval) and not cfg.get('sm_preload') and (vec(x) not in logged or not feq(objective(R, vec(x)), float(fval))):
             bad('wrapper_fopt', 'fopt=%r at xopt=%r: not the objective at an evaluated point' % (fval, vec(x)))
         return out
     members = list(s._allSolvers)
@@ -220,7 +236,7 @@ def judge(R):
     if cfg['ens'] == 'lattice':
         gbox = box if box is not None else ([-1e3] * dim, [1e3] * dim)
         obs = starts
-        if obs is None and all(p is not None for p in firsts) and R.con is None:
+        if obs is None and all(p is not None for p in firsts) and R.con is None and not legacy_steps:
             obs = firsts
         if obs is not None:
             nb = cfg['nbins']
@@ -284,7 +300,7 @@ def judge(R):
                 bad('evaluated_unconstrained', 'member %r evaluated %r which violates the constraint %s' % (_key(k), x, R.con.tag))
                 break
     # member evaluation monitors: the legacy records the ensemble was handed, then exactly this member's calls
-    if (cfg.get('evalmon') or cfg.get('em_preload')) and cfg['nested'] != 'DE2' and not stray:
+    if (cfg.get('evalmon') or cfg.get('em_preload')) and cfg['nested'] != 'DE2' and not stray and not (legacy_steps and cfg['ens'] == 'sparsity'):
         L0 = cfg.get('em_preload') or 0
         for i, m in enumerate(members):
             mine = [c[0] for c in by.get(i, ())]
@@ -382,7 +398,9 @@ def tally_run(T, R, viol, case):
     T.hist('ensemble', cfg['ens'])
     T.hist('mode', cfg.get('mode', 'solve'))
     T.hist('map', cfg['map'] if isinstance(cfg.get('map'), str) else ('perm' if cfg.get('map') else 'none'))
-    if R.error is not None:
+    if getattr(R, 'note', None):
+        T.hist('outcome', R.note)
+    elif R.error is not None:
         T.hist('outcome', 'raised:' + R.error[0] + ':' + limits_kind(cfg))
     else:
         T.hist('outcome', 'returned')
@@ -810,6 +828,34 @@ def configs(ctx):
                                     continue
                                 out.append(dict(L, nested=nst, box='unit', con=con, pen=pen, limits=lim, term='never', evalmon=bool(con),
                                                 map=mp, mode=mode, cost=cost, seed=seed))
+    # A7 monitors that already hold records when the ensemble starts (legacy data: the documented way to tell
+    # SparsitySolver where earlier evaluations were made); the accounting must speak of THIS run's calls
+    lay7 = [{'ens': 'lattice', 'nbins': [2]}, {'ens': 'lattice', 'nbins': [2, 2]}, {'ens': 'buckshot', 'dim': 2, 'npts': 3},
+            {'ens': 'sparsity', 'dim': 2, 'npts': 2}] + ([{'ens': 'lattice', 'nbins': [1, 3]}, {'ens': 'sparsity', 'dim': 1, 'npts': 3}] if th else [])
+    for L in lay7:
+        for nst in ('NM', 'Powell') + (('DE',) if th else ()):
+            for mode in modes:
+                for eml, sml in ((1, None), (3, None), (None, 1), (None, 3), (3, 3), (1, 3)):
+                    for lim in ([3, None], [None, 7]):
+                        for term in ('never', 'vtr10'):
+                            if L['ens'] == 'sparsity' and not th and (nst != 'NM' or lim[0] is None):
+                                continue
+                            if term == 'vtr10' and not th and (lim[0] is None or not sml):
+                                continue    # a termination the legacy step records already satisfy: members may make no call at all
+                            mps = ['default'] + (['copy'] if (mode == 'solve' or th) and requested(L) <= 3 else [])
+                            for mp in mps:
+                                out.append(dict(L, nested=nst, box='unit', con=None, pen=None, limits=lim, term=term, evalmon=True,
+                                                em_preload=eml, sm_preload=sml, map=mp, mode=mode, cost='sphere', seed=seed))
+    # A8 the same ensemble object solved twice in a row, the second time under raised limits
+    for L in [{'ens': 'lattice', 'nbins': [2]}, {'ens': 'lattice', 'nbins': [2, 2]}, {'ens': 'buckshot', 'dim': 2, 'npts': 3}] + \
+             ([{'ens': 'sparsity', 'dim': 2, 'npts': 2}] if th else []):
+        for nst in ('NM', 'Powell'):
+            for mode in modes:
+                for em in (False, True):
+                    for lim, lim2 in (([2, None], [5, None]), ([None, 6], [None, 14])):
+                        for mp in ['default'] + (['copy'] if (mode == 'solve' or th) and requested(L) <= 3 else []):
+                            out.append(dict(L, nested=nst, box='unit', con=None, pen=None, limits=lim, twice=lim2, term='never', evalmon=em,
+                                            em_preload=3 if (em and lim[0] is None) else None, map=mp, mode=mode, cost='sphere', seed=seed))
     # A4 integer bin counts (randomly gridded) and no strict ranges
     for N in (1, 2, 3, 4, 6) + ((5, 8, 12) if th else ()):
         for dim in (1, 2, 3):
@@ -860,6 +906,15 @@ def wrapper_configs(ctx):
                             continue    # symbolic bounds (sympy) per member: two wrapper runs (quick)
                         out.append(dict(L, api='wrapper', nested=nst, box='shift', tight=tight, clip=clip, con='clamp/pure', pen=None, limits=lim,
                                         term=None, evalmon=True, map='default', mode=mode, cost='sphere', seed=ctx.seed, diff=True))
+    # evalmon= / itermon= monitors that already hold records
+    for L in ({'ens': 'lattice', 'nbins': [2, 2]}, {'ens': 'buckshot', 'dim': 2, 'npts': 3}, {'ens': 'sparsity', 'dim': 2, 'npts': 2}):
+        for nst in ('NM', 'Powell'):
+            for mode in ('solve', 'stepsolve'):
+                for eml, sml in ((1, None), (3, None), (None, 3), (3, 3)):
+                    if L['ens'] == 'sparsity' and not th and (nst != 'NM' or mode != 'solve'):
+                        continue
+                    out.append(dict(L, api='wrapper', nested=nst, box='unit', con=None, pen=None, limits=[3, None], term=None,
+                                    evalmon=True, em_preload=eml, sm_preload=sml, map='default', mode=mode, cost='sphere', seed=ctx.seed))
     # differential-evolution members (best kept apart from population[0]) through the wrappers
     for L in ({'ens': 'lattice', 'nbins': [2, 2]}, {'ens': 'lattice', 'nbins': [3]}, {'ens': 'buckshot', 'dim': 2, 'npts': 3}):
         for nst in ('DE', 'DE2'):
@@ -985,7 +1040,8 @@ def run(ctx):
     items.sort(key=lambda it: order.get(it[0], 9))
     ctx.bounds = {
         'layouts': layouts(th), 'nested': ['NM', 'Powell', 'DE(NP=4) and DE2(NP=4): slice A6 in quick, full product in thorough (DE)'],
-        'range_modes(tight,clip)': [[None, None], [True, None], [None, True], [True, True]], 'boxes': ['unit[-1,2]', 'shift[0.25,3]', 'degen(x0=0.5)', 'none'],
+        'range_modes(tight,clip)': [[None, None], [True, None], [None, True], [True, True]],
+        'legacy_monitor_records(eval,step)': [[1, 0], [3, 0], [0, 1], [0, 3], [3, 3], [1, 3]], 'second_solve_limits': [[[2, None], [5, None]], [[None, 6], [None, 14]]], 'boxes': ['unit[-1,2]', 'shift[0.25,3]', 'degen(x0=0.5)', 'none'],
         'constraint': [None, 'clamp x0<=0.75 (pure)'], 'penalty': [None, 'ramp 10*max(0,sum(x)-1)'],
         'limits(maxiter,maxfun)': [None] + (LIMITS_T if th else LIMITS_Q), 'termination': ['ensemble default', 'VTR(1/16)', 'ChangeOverGeneration(1/64,1)', 'never'],
         'maps': ['none (SetMapper not called)', 'default (traced python_map)', 'fwd', 'rev', 'copy (dill)', 'copyrev', 'every permutation x {share,copy} for 2-3%s members' % ('-4' if th else '')],
@@ -1006,6 +1062,10 @@ def run(ctx):
         "limits are judged in the C05 sense: no member iteration begins when generations >= maxiter, real evaluations >= maxfun or the termination condition holds",
         "differential clause: an NM / Powell member must make exactly the cost calls of a stand-alone nested solver configured by hand with the ensemble's start, "
         "box and range mode (tight / clip=True), constraint, penalty, limits and termination (clip=False re-enters at random and is left to C02)",
+        "monitors handed to the ensemble may already hold records (legacy data): counts are judged against the cost calls of THIS run; legacy *step* records make "
+        "every nested solver believe it has already run (base-solver semantics), so for those runs only member count, selection, accounting, configuration and "
+        "box obedience are judged, and an exception is judged only when a stand-alone nested solver handed the same records does not raise it too",
+        "a second Solve on the same ensemble is made after raising the limits on the ensemble and on the members it already holds (SetEvaluationLimits on the ensemble alone does not reach them)",
         "MixedSolver, Collapse, SetDistribution on ensembles and a configured nested solver *instance* are outside this check",
     ]
     ctx.pmap(_dispatch, items)
